@@ -46,6 +46,11 @@ def _worker(args):
     from jvc.lib import LIB
     mod = importlib.import_module("contracts." + prop.lower())
     c = mod.CONTRACTS[idx]
+    # which parameters the verified contracts of each function speak about (call-site guard in Executor.call_contract)
+    from jvc import symexec as _sx
+    for c_ in mod.CONTRACTS:
+        if c_.params or any(k for cs in c_.cases for k in cs if not k.startswith("_")):
+            _sx.KNOWN_PARAMS.setdefault(c_.qual, set()).update(c_.params, *[[k for k in cs if not k.startswith("_")] for cs in c_.cases])
     t0 = time.time()
     out = {"qual": c.qual, "idx": idx, "vcs": [], "error": None, "covers": [], "trusted": [], "src": None,
            "notes": c.notes, "vacuous": []}
